@@ -1926,6 +1926,9 @@ package gohlslib
 //@   props C16
 //@ end
 
+//@ pred startNumbering(m *Muxer, s *muxerStream) := s != nil && s.variant == m.Variant && len(s.segments) == 0 && s.segmentDeleteCount == 0
+//@   && s.nextSegmentID == ite(m.Variant == MuxerVariantLowLatency, 7, 0)
+
 //@ func Muxer.Start
 //@   props C01 C04 C16
 //@   role init
@@ -1948,6 +1951,7 @@ package gohlslib
 //@   loop 5 invariant nolocks() && m.server != nil && m.server.pathHandlers != nil && &m.server.mutex != &m.mutex
 //@   loop 5 invariant forall(k, inTracks(m, k) ==> (m.mtracks[k] != nil && m.mtracks[k].Track == m.Tracks[k] && m.mtracks[k].isLeading == leadSpec(m, k)))
 //@   loop 5 invariant defaultAudioChosen == (!hasDefaultAudio && !firstRend(m, ri + 1))
+//@   loop 5 invariant forall(k, (0 <= k && k <= ri) ==> startNumbering(m, m.streams[k]))
 //@   loop 5 invariant forall(k, (0 <= k && k <= ri) ==> (m.streams[k] != nil
 //@        && m.streams[k].isLeading == leadSpec(m, k) && m.streams[k].isRendition == rendSpec(m, k) && m.streams[k].isDefault == defSpec(m, k)))
 //@   ensures (result == nil && m.Variant != MuxerVariantMPEGTS) ==> len(m.streams) == len(m.Tracks)
@@ -1955,6 +1959,9 @@ package gohlslib
 //@        && m.streams[k].isLeading == leadSpec(m, k) && m.streams[k].isRendition == rendSpec(m, k) && m.streams[k].isDefault == defSpec(m, k)))
 //@   ensures (result == nil && m.Variant != MuxerVariantMPEGTS) ==> forall(j, inTracks(m, j) ==> forall(k, (j < k && inTracks(m, k)) ==> !(audioMarked(m, j) && audioMarked(m, k))))
 //@   ensures result == nil ==> (m.leadingStream != nil && m.leadingStream.isLeading)
+// C04: every stream starts with an empty window whose numbering is the base case of the window invariant: the first segment
+// gets media sequence number 0, or 7 in the Low-Latency variant (right after the seven initial gap entries, whatever SegmentCount is)
+//@   ensures [C04] result == nil ==> forall(k, (0 <= k && k < len(m.streams)) ==> startNumbering(m, m.streams[k]))
 //@   ensures (result == nil && m.Variant != MuxerVariantMPEGTS) ==> forall(i, (0 <= i && i < len(m.streams)) ==> forall(j, (i < j && j < len(m.streams)) ==> !(m.streams[i].isLeading && m.streams[j].isLeading)))
 //@ end
 
